@@ -150,7 +150,9 @@ def _inverted_cases(tier):
     hard-sample fractions are then close but not equal."""
     sizes = [(1000, 999, 1, 1), (999, 1000, 1, 1), (5000, 4999, 3, 3), (2000, 2000, 5, 5), (1200, 1199, 2, 1),
              # a dozen scored samples under billions of easy ones: both hard fractions below 1e-8, far from equal
-             (12, 10, 5 * 10**9, 10**9), (12, 10, 10**9, 5 * 10**9), (12, 10, 10**10, 10**10 + 5), (3, 7, 10**12, 3 * 10**11)]
+             (12, 10, 5 * 10**9, 10**9), (12, 10, 10**9, 5 * 10**9), (12, 10, 10**10, 10**10 + 5), (3, 7, 10**12, 3 * 10**11),
+             # hard fractions that differ by less than 1e-5 relative, yet by several samples (D30)
+             (400_000, 400_000, 400_000, 399_994), (400_000, 400_000, 399_997, 400_000)]
     if tier != "quick":
         sizes += [(20000, 19999, 7, 7), (1000, 999, 2, 2), (999, 1000, 3, 3), (3000, 2998, 1, 1)]
     for n, m, ep, en in sizes:
@@ -161,10 +163,11 @@ def _inverted_cases(tier):
 def check_inverted(case):
     n, m, ep, en, sc, ec = (case[k] for k in ("n", "m", "ep", "en", "sc", "ec"))
     # inverted: the class the scores should favour lies entirely on the wrong side
+    off = 10_000.25 + 0.5 * max(n, m)
     if sc == "pos":
-        pos, neg = np.arange(n) * 0.5, 10_000.25 + np.arange(m) * 0.5
+        pos, neg = np.arange(n) * 0.5, off + np.arange(m) * 0.5
     else:
-        pos, neg = 10_000.25 + np.arange(n) * 0.5, np.arange(m) * 0.5
+        pos, neg = off + np.arange(n) * 0.5, np.arange(m) * 0.5
     s = _mk(pos.tolist(), neg.tolist(), ep, en, sc, ec)
     t, e = s.eer()
     t, e = float(t), float(e)
@@ -209,6 +212,36 @@ def check_packed(case):
             f"{ctx}: t={t!r} eer={e!r} FPR(t)={fpr!r} (off by {abs(fpr - e) * Nn:.1f} samples) FNR(t)={fnr!r} "
             f"(off by {abs(fnr - e) * P:.1f} samples)")
     return dict(nontrivial=0 < e < 1, labels=["packed-large"])
+
+
+# ---------------------------------------------------------------------- a packed class under very many easy samples
+def _packed_easy_cases(tier):
+    """A few hundred scores of one class 1e-12 apart, the other class far away on both sides, and 1e9-1e13
+    easy samples per class: the EER itself is below 1e-7, so anything the library does "a little to either
+    side" of it has to scale with it (D30)."""
+    for easy in (10**9, 10**11, 10**13) if tier == "quick" else (10**8, 10**9, 10**10, 10**11, 10**12, 10**13):
+        for which in ("pos", "neg"):
+            for sc, ec in CONFIGS:
+                yield dict(easy=easy, which=which, sc=sc, ec=ec)
+
+
+def check_packed_easy(case):
+    easy, which, sc, ec = (case[k] for k in ("easy", "which", "sc", "ec"))
+    packed = np.concatenate([0.5 + np.arange(200) * 1e-12, [-1e7, 1e7]])
+    wide = np.concatenate([-100.0 - np.arange(100), 1e5 + np.arange(100)])
+    pos, neg = (packed, wide) if which == "pos" else (wide, packed)
+    from score_analysis import Scores
+
+    s = Scores(pos, neg, nb_easy_pos=easy, nb_easy_neg=easy, score_class=sc, equal_class=ec)
+    t, e = s.eer()
+    t, e = float(t), float(e)
+    P, Nn = len(pos) + easy, len(neg) + easy
+    fpr, fnr = float(s.fpr(t)), float(s.fnr(t))
+    ctx = f"200 {which} scores 1e-12 apart, {easy} easy samples per class, config={sc}/{ec}"
+    require(abs(fpr - e) <= 1.01 / Nn and abs(fnr - e) <= 1.01 / P, "eer:fpr-crossing",
+            f"{ctx}: t={t!r} eer={e!r} FPR(t)={fpr!r} (off by {abs(fpr - e) * Nn:.2f} samples) FNR(t)={fnr!r} "
+            f"(off by {abs(fnr - e) * P:.2f} samples)")
+    return dict(nontrivial=0 < e < 1, labels=["packed-easy"])
 
 
 # ---------------------------------------------------------------------- zero clause
@@ -310,6 +343,8 @@ PROP = Prop(
                min_nontrivial=10, doc="~1000 inverted scores per class, close hard-sample fractions"),
         Clause("packed_large", check_packed, kind="enum", cases=_packed_cases, quick_shards=8, shards=16,
                min_nontrivial=4, doc="2000-4000 scores 1e-12 apart inside a gap of 2e5-6e5 scores of the other class"),
+        Clause("packed_easy", check_packed_easy, kind="enum", cases=_packed_easy_cases, quick_shards=4, shards=8,
+               min_nontrivial=4, doc="200 scores 1e-12 apart under 1e9-1e13 easy samples per class"),
         Clause("zero", check_zero, strategy=st.one_of(_any_scores(), _any_scores(), _any_scores(), _narrow_scores(), _narrow_scores(), _longdouble_scores()), quick=250, thorough=4800, quick_shards=2,
                min_nontrivial=50, doc="reported EER 0 comes with an error-free threshold"),
     ],
